@@ -2,10 +2,16 @@
 """Runs the checks against the confirmed seeded mutations: applies seeded/<ID>-<X>/patch.diff to /repo,
 runs the requested checks (default: the property's own check, `--all` for every claimed check), undoes
 the patch, and records which checks reported a violation in seeded/RESULTS.json.
-usage: run_seeded.py [--all] [ID-X ...]"""
+usage: run_seeded.py [--all] [--repo=DIR] [--out=FILE] [ID-X ...]
+  --repo=DIR  apply the patches to another checkout (a scratch worktree) instead of /repo; the checks read it through TSG_REPO
+  --out=FILE  write the results there instead of seeded/RESULTS.json (e.g. a first-run record)
+The checks are run with --no-evidence, so evidence/*.json keeps describing the unchanged tree."""
 import json, os, subprocess, sys
 VERIF = os.path.dirname(os.path.dirname(os.path.abspath(__file__)))
 REPO = "/repo"
+for a in sys.argv[1:]:
+    if a.startswith("--repo="):
+        REPO = a.split("=", 1)[1]
 
 def sh(*a, **k):
     return subprocess.run(a, stdout=subprocess.PIPE, stderr=subprocess.STDOUT, text=True, **k)
@@ -19,6 +25,9 @@ def main():
     if args:
         seeds = [s for s in seeds if s in args]
     res_path = os.path.join(VERIF, "seeded", "RESULTS.json")
+    for a in sys.argv[1:]:
+        if a.startswith("--out="):
+            res_path = a.split("=", 1)[1]
     results = json.load(open(res_path)) if os.path.exists(res_path) else {}
     assert sh("git", "-C", REPO, "status", "--porcelain", "--untracked-files=no").stdout.strip() == "", "/repo has local changes"
     for s in seeds:
@@ -31,7 +40,7 @@ def main():
             todo = claimed if all_checks else ([prop] if prop in claimed else [])
             hits = {}
             for c in todo:
-                rr = sh(os.path.join(VERIF, "check"), c, cwd=VERIF)
+                rr = sh(os.path.join(VERIF, "check"), c, "--no-evidence", cwd=VERIF, env=dict(os.environ, TSG_REPO=REPO))
                 viol = [l for l in rr.stdout.splitlines() if l.startswith("VIOLATION")]
                 details = []
                 lines = rr.stdout.splitlines()
